@@ -68,3 +68,6 @@ func (s *Swarm) VerifFlushAll() {
 
 // VerifPayload wraps a state the way the swarm does before handing it to the gossip layer.
 func VerifPayload(st *event.State, full bool) mesh.GossipData { return &payload{state: st, full: full} }
+
+// VerifPeerSeen runs what the periodic update does for a peer the gossip layer knows.
+func (s *Swarm) VerifPeerSeen(name mesh.PeerName) { s.peerSeen(name) }
